@@ -1,4 +1,5 @@
-//! Copies /repo/rlib/treap/src/{treap_node,treap}.rs into OUT_DIR, rerouting every synchronisation
+//! Copies every source file of /repo/rlib/treap/src into OUT_DIR (lib.rs with its `mod` items turned into
+//! includes, so the crate's module tree is reproduced at the root of this harness crate), rerouting every synchronisation
 //! primitive and every piece of process-wide state they use to loom's model of it, so that loom owns
 //! (and resets between executions) whatever the treap crate shares between threads.
 //!
@@ -126,21 +127,53 @@ fn find_static(s: &str) -> Option<usize> {
     None
 }
 
+/// lib.rs: `mod NAME;` -> `mod NAME { include!(OUT_DIR/NAME.rs) }` so that the crate's own module tree (and
+/// its `pub use` lines) is reproduced at the root of the harness crate, whatever files it consists of
+fn rewrite_mods(s: &str) -> String {
+    let mut out = String::new();
+    for line in s.lines() {
+        let t = line.trim();
+        let body = t.trim_start_matches("pub(crate) ").trim_start_matches("pub ");
+        if let Some(name) = body.strip_prefix("mod ").and_then(|r| r.strip_suffix(';')) {
+            let name = name.trim();
+            if name.chars().all(|c| c.is_alphanumeric() || c == '_') {
+                out.push_str(&format!("pub mod {name} {{ include!(concat!(env!(\"OUT_DIR\"), \"/{name}.rs\")); }}\n"));
+                continue;
+            }
+        }
+        out.push_str(line);
+        out.push('\n');
+    }
+    out
+}
+
 fn main() {
     let out = PathBuf::from(env::var("OUT_DIR").unwrap());
     let src_dir = PathBuf::from(env::var("VERIF_TREAP_SRC").unwrap_or_else(|_| "/repo/rlib/treap/src".to_string()));
+    println!("cargo:rerun-if-changed={}", src_dir.display());
+    let mut files: Vec<String> = fs::read_dir(&src_dir)
+        .expect("treap source directory")
+        .filter_map(|e| e.ok())
+        .map(|e| e.file_name().to_string_lossy().into_owned())
+        .filter(|n| n.ends_with(".rs"))
+        .collect();
+    files.sort();
     let mut all_notes = vec![];
-    for f in ["treap_node.rs", "treap.rs"] {
+    let mut has_static_mut = false;
+    for f in &files {
         let p = src_dir.join(f);
         println!("cargo:rerun-if-changed={}", p.display());
         let src = fs::read_to_string(&p).expect("treap source");
-        let (dst, notes) = rewrite(&src);
+        has_static_mut |= src.contains("static mut");
+        let (mut dst, notes) = rewrite(&src);
+        if f == "lib.rs" {
+            dst = rewrite_mods(&dst);
+        }
         for n in notes {
             all_notes.push(format!("{f}: {n}"));
         }
         fs::write(out.join(f), dst).unwrap();
     }
     println!("cargo:rerun-if-env-changed=VERIF_TREAP_SRC");
-    let has_static_mut = ["treap_node.rs", "treap.rs"].iter().any(|f| fs::read_to_string(src_dir.join(f)).unwrap().contains("static mut"));
     fs::write(out.join("rewrite_notes.rs"), format!("pub const REWRITES: &[&str] = &{:?};\npub const HAS_STATIC_MUT: bool = {};\n", all_notes, has_static_mut)).unwrap();
 }
